@@ -11,7 +11,7 @@ from fw import gz, gbool, glist, gopt, gstr
 # (framework change that would make this unnecessary: a per-property `coq_shard` attribute read by run_check)
 _coq_eval = fw.coq_eval
 def _coq_eval_small_shards(imports, terms, workdir, tag, timeout=600, shard=250):
-    return _coq_eval(imports, terms, workdir, tag, timeout, shard=max(10, min(250, (len(terms) + 11) // 12)))
+    return _coq_eval(imports, terms, workdir, tag, timeout, shard=max(10, min(250, (len(terms) + 9) // 10)))
 fw.coq_eval = _coq_eval_small_shards
 
 GRACE = 15
@@ -509,6 +509,30 @@ def gen_lookup_query(rng):
     rng.shuffle(q)
     return q
 
+# pure helper functions of the model (CPython's int(), str.split(), urljoin as rd.py uses them) against the originals
+H_SCHEMES = ["coap", "coaps", "http", "coap+tcp", ""]
+H_AUTHS = ["h1", "b1:99", "[::1]", "[2001:db8::1]:5683", "a.b-c"]
+H_PATHS = ["", "/", "/p", "/p/", "/p/q", "/p//q/", "/p/./q", "/p/../q", "/reg/1/"]
+H_REFS = ["", "/", "/a", "/a/b/", "a", "a/b", "../a", "./a", ".", "..", "a/..", "//n/x", "coap://o/x", "coaps://o", "http://w/", "/a/./b/../c", "a//b", "a/",
+          "../../x", "/..", "coap:x", "x:y", "coap:/x", "coap:///x", "/s/t", "rel/deeper", "1", "a:1/b"]
+H_INTS = ["5", "-5", "+5", " 5", "5 ", "1_0", "", "abc", "5x", "0x10", "1__0", "_1", "1_", "-", "- 5", "007", "0_7", "+-5", "5.0", "1e3", " ", "+", "12345678901234567890",
+          "-0", "1 2", "90000", "-15", "4294967296"]
+H_SPLITS = ["", " ", "a", "a b", " a  b ", "temp humid", "x y z", "core.rd-ep", "a b ", "  "]
+def gen_helpers(rng):
+    def base():
+        r = rng.random()
+        if r < 0.85:
+            sc = rng.choice(H_SCHEMES)
+            return (sc + "://" if sc else "") + rng.choice(H_AUTHS) + rng.choice(H_PATHS)
+        return rng.choice(["", "noscheme", "/abs", "rel/x", "coap://", "coap://h1:"])
+    def num():
+        r = rng.random()
+        if r < 0.5: return rng.choice(H_INTS)
+        s = "".join(rng.choice("0123456789_+- x") for _ in range(rng.randint(0, 6)))
+        return s
+    return {"urljoin": [[base(), rng.choice(H_REFS)] for _ in range(12)], "int": [num() for _ in range(10)],
+            "split": [rng.choice(H_SPLITS) for _ in range(3)], "eq": [rng.choice(["a=b", "a", "=", "a=", "=b", "a=b=c", "lt=1", ""]) for _ in range(3)]}
+
 class Guess:
     """the generator's rough idea of the directory (it only steers choices: which locations are probably live, when they
     probably expire); a wrong guess just makes a request hit 4.04"""
@@ -610,7 +634,7 @@ class C20(fw.Property):
     coq_props = "Props/C20.v"
     gen_jobs = []
     model_imports = ["Verif.Model.C20Str", "Verif.Model.C20"]
-    quick_budget = 240
+    quick_budget = 200
     thorough_budget = 6000
     design_ref = "DESIGN.md section 23"
     technique = ("Coq invariant / frame proofs over an executable model of CommonRD + Registration + the RD resources with the lifetime timers on a "
@@ -628,7 +652,8 @@ class C20(fw.Property):
                   "extension (proxy_domain is None: every proxy=... is 4.00), observation notifications of the lookup resources, key case-insensitivity of "
                   "Link.__contains__, Unicode digits/whitespace in int(), urljoin outside the grammar stated in Model/C20Str.v, valueless anchor attributes. "
                   "Six open findings (5.00 answers, one of them after changing a lifetime; multi-criteria lookups) are modelled faithfully and listed in known_findings.d/C20.json.")
-    rule = ("stream history = 3..26 steps: register (28 %: names a/b/node1/'' x sectors -/x/y, 70 % clean parameters, else 1-2 injected faults among invalid/valueless/"
+    rule = ("stream helpers (1 in 8) = the model's urljoin / int() / str.split() / query splitting against CPython's on scheme x authority x path x reference tables and "
+            "random digit strings. stream history = 3..26 steps: register (28 %: names a/b/node1/'' x sectors -/x/y, 70 % clean parameters, else 1-2 injected faults among invalid/valueless/"
             "duplicate lt, valueless/duplicate base, ep missing/duplicate/valueless, d duplicate/valueless, forbidden keys rt/href/page/count/anchor/proxy; content-format "
             "40/None/0/50; 0-3 links with relative/absolute/full hrefs and anchors; malformed payloads; anonymous remotes), update POST (15 %, 16 % with a body or "
             "content-format), PUT (9 %), DELETE (6 %), GET of the registration resource (4 %), endpoint/resource lookups (18 %: exact/prefix/rt/if/href/anchor criteria, "
@@ -644,7 +669,8 @@ class C20(fw.Property):
 
     def gen_cases(self, tier, rng, n):
         for k in range(n):
-            yield "history", gen_history(rng, k)
+            if k % 8 == 7: yield "helpers", gen_helpers(rng)
+            else: yield "history", gen_history(rng, k)
         if tier == "thorough":
             # exhaustive small scope (validation of the tie, not a proof): every sequence of up to 3 steps over a 10-letter alphabet
             # of writes on one or two names, each followed by the passage of exactly the shortest lifetime (+ grace) minus 1 us and 1 us
@@ -660,6 +686,16 @@ class C20(fw.Property):
                     yield "history", {"ops": [dict(A[i]) for i in seq] + [{"op": "advance", "us": 75 * US - 1}, {"op": "advance", "us": 1}]}
 
     def impl(self, stream, inp):
+        if stream == "helpers":
+            import aiocoap.cli.rd as rd
+            def pint(x):
+                try: return int(x)
+                except ValueError: return None
+            def qs(x):
+                m = type("M", (), {})(); m.opt = type("O", (), {})(); m.opt.uri_query = [x]
+                return [[k, v[0]] for k, v in rd.query_split(m).items()][0]
+            return {"urljoin": [rd.urljoin(b, r) for b, r in inp["urljoin"]], "int": [pint(x) for x in inp["int"]],
+                    "split": [x.split() for x in inp["split"]], "eq": [qs(x) for x in inp["eq"]]}
         w = World()
         try:
             out = []
@@ -670,10 +706,16 @@ class C20(fw.Property):
             w.close()
 
     def model(self, stream, inp):
+        if stream == "helpers":
+            return "(map (fun p => urljoin (fst p) (snd p)) %s, map parse_int %s, map split_ws %s, map split_eq %s)" % (
+                glist(["(%s, %s)" % (gstr(b), gstr(r)) for b, r in inp["urljoin"]]), g_strs(inp["int"]), g_strs(inp["split"]), g_strs(inp["eq"]))
         return "run empty_rd %s" % glist([g_op(o) for o in inp["ops"]])
 
     def decode(self, stream, inp, p):
         p = fw.plain(p)
+        if stream == "helpers":
+            u, i, sp, eq = p
+            return {"urljoin": u, "int": [d_ostr(x) for x in i], "split": sp, "eq": [[k, d_ostr(v)] for k, v in eq]}
         out = []
         for ob in p:
             out.append({"r": d_resp(ob["o_resp"]), "ep": d_resp(ob["o_ep"]), "res": d_resp(ob["o_res"]),
@@ -683,6 +725,7 @@ class C20(fw.Property):
         return out
 
     def oracle(self, stream, inp, res):
+        if stream == "helpers": return None           # pure correspondence of the string helpers; the property is judged on histories
         if isinstance(res, dict): return ("C20:crash:" + res.get("where", "?"), "harness/implementation raised %s: %s" % (res.get("harness_exception"), res.get("text")))
         hard, soft = check_history(inp, res)
         if hard: return hard[0]
@@ -692,6 +735,7 @@ class C20(fw.Property):
         return None
 
     def nontrivial(self, stream, inp, res):
+        if stream == "helpers": return None
         if isinstance(res, dict): return None
         kinds = set()
         prev = 0
